@@ -762,11 +762,17 @@ def check(ctx):
         'combinations, 3-d in the thorough tier), with and without `out`, '
         'so node values are reproduced and linear interpolation is exact '
         'for affine functions.  R2: nearest-neighbour interpolation does no '
-        'arithmetic on the values.  R3: _find_indices returns the clamped '
-        'cell and the distance normalised by that cell.  R5: the dtype '
-        'kinds (int/float/complex) of all arrays in the out-of-place '
-        'evaluation are propagated; every in-place ufunc must be closed '
-        '(same_kind) and the result must be inexact for weighted schemes.  '
+        'arithmetic on the values.  R4: sampling_function / dual_use_func / '
+        'point_collocation sample out-of-place, in-place, dual-use and '
+        'vectorize-decorated callables on small meshes and point arrays to '
+        'exactly the function values.  R3: _find_indices returns the clamped '
+        'cell and the distance normalised by that cell.  R5: the NumPy '
+        'dtypes of all arrays in the out-of-place evaluation are propagated '
+        'with NumPy\'s own promotion / casting tables for nine value '
+        'dtypes; every in-place ufunc must be closed (same_kind), the '
+        'result of a weighted scheme is inexact and at least double for '
+        'integer values, and the float64 query points reach the node '
+        'search without loss of precision.  '
         'R6: wiring of Resampling, linear_deform and DiscretizedSpace.element '
         'to the interpolators / sampling helpers.  R7: signature table of '
         '_check_func_out_arg and the (func_ip, func_oop) selection of '
